@@ -166,6 +166,60 @@ func runC41(p *core.Prog, r *core.Report) {
 	}
 	r.Analysed["functions_with_parse_helpers"] = len(scope)
 	r.Analysed["uses_examined"] = total
+	// ---------------- R3 nested scans are confined to the nested field
+	r3 := r.Rule("C41.R3", "a scan that starts at the value offset of a located field is confined to that field: the scanned buffer is cut at the field's end before the loop", 1)
+	nNest := 0
+	for _, fn := range p.FuncsIn("internal/object") {
+		// `off := base + f.ValueFrom` for a FieldBounds value f
+		for _, b := range fn.Blocks {
+			for _, in := range b.Instrs {
+				bo, ok := in.(*ssa.BinOp)
+				if !ok || bo.Op.String() != "+" {
+					continue
+				}
+				base, fname := boundsField(bo.Y)
+				if base == nil || fname != "ValueFrom" {
+					continue
+				}
+				// is it the start offset of a tag-parsing loop?
+				loops := len(core.CallSites([]*ssa.Function{fn}, func(s core.Site) bool {
+					return strings.HasSuffix(s.Name, "protobuf.ParseTag") && inCycle(s.Call.Block())
+				})) > 0
+				if !loops {
+					continue
+				}
+				nNest++
+				// a reslice buf[:base+f.To] of the same bounds value must dominate the loop
+				cut := false
+				for _, b2 := range fn.Blocks {
+					for _, i2 := range b2.Instrs {
+						sl, isSl := i2.(*ssa.Slice)
+						if !isSl || sl.High == nil {
+							continue
+						}
+						hb, isB := sl.High.(*ssa.BinOp)
+						if !isB || hb.Op.String() != "+" {
+							continue
+						}
+						tb, tname := boundsField(hb.Y)
+						if tb != nil && tb == base && tname == "To" && hb.X == bo.X {
+							// and the loop parses from that cut buffer
+							for _, s := range core.CallSites([]*ssa.Function{fn}, func(s core.Site) bool { return strings.HasSuffix(s.Name, "protobuf.ParseTag") }) {
+								if a, isA := s.Call.Common().Args[0].(*ssa.Slice); isA && (a.X == ssa.Value(sl) || flowsTo(sl, a.X, 3)) {
+									cut = true
+								}
+							}
+						}
+					}
+				}
+				r3.Check(cut, core.FuncName(fn)+"#nested-scan-bounded", p.InstrPos(in), "the scan of the nested message cannot run past the field's end", "the scan that starts at the nested field's value offset is not confined to the field: it runs on into the following fields of the outer message (e.g. the payload) and mistakes them for fields of the nested message")
+			}
+		}
+	}
+	if nNest == 0 {
+		r.Fatalf("C41.R3: no nested scan found in internal/object (expected getParentNonPayloadFieldBounds)")
+	}
+
 	// ---------------- R2 no panics / unchecked assertions
 	r2 := r.Rule("C41.R2", "no explicit panic or unchecked type assertion in the fast parsing functions (tabled API-misuse panics excepted)", 1)
 	tabled := map[string]string{
@@ -254,4 +308,22 @@ func switchCoversRange(fn *ssa.Function) (int64, int64, bool) {
 		}
 	}
 	return 0, 0, false
+}
+
+// boundsField: v reads field `name` of a protobuf.FieldBounds value (struct value or local variable); returns the bounds value/cell.
+func boundsField(v ssa.Value) (ssa.Value, string) {
+	const pre = "(github.com/nspcc-dev/neofs-sdk-go/proto/protobuf.FieldBounds)."
+	switch x := v.(type) {
+	case *ssa.Field:
+		if n := core.FieldAddrNameOfField(x); strings.HasPrefix(n, pre) {
+			return x.X, strings.TrimPrefix(n, pre)
+		}
+	case *ssa.UnOp:
+		if fa, ok := x.X.(*ssa.FieldAddr); ok {
+			if n := core.FieldAddrName(fa); strings.HasPrefix(n, pre) {
+				return fa.X, strings.TrimPrefix(n, pre)
+			}
+		}
+	}
+	return nil, ""
 }
